@@ -125,6 +125,7 @@ def run(tier, seed, mutant=None, only_validate=False):
                 cfgs.append({"kind": "timed_window_unique", "interval": 2, "keep": keep, "mod": 2, "cons": [c], "max_elems": ne})
         cfgs += [{"kind": "timed_window", "interval": "2d", "cons": ["sync"], "max_elems": 3}]
         cfgs += [{"kind": "timed_window", "interval": 2, "cons": ["future"], "max_elems": ne, "faults": True}]
+        cfgs += [{"kind": "timed_window", "interval": 2, "cons": ["future"], "max_elems": ne, "feeder": "plain"}]
         cfgs += [{"kind": "timed_window", "interval": 2, "cons": ["future"], "max_elems": ne, "falsy": {"none": 2, "zero": 3}}]
         if tier != "quick":
             cfgs += [{"kind": "timed_window", "interval": 3, "cons": ["future"], "max_elems": ne},
